@@ -54,3 +54,17 @@ macro "py_norm" loc:(Lean.Parser.Tactic.location)? : tactic =>
 /-- Finish a goal that is a tree of `if`s over linear integer conditions. -/
 macro "py_cases" : tactic =>
   `(tactic| (repeat' split) <;> first | rfl | omega | (simp_all <;> omega))
+
+namespace Proofs
+/-- `Py.floorDiv`/`Py.mod` by a positive literal are `/` and `%` -/
+theorem floorDiv_pos' (a : Int) (n : Nat) [h : NeZero n] :
+    Py.floorDiv a (no_index (OfNat.ofNat n)) = a / (OfNat.ofNat n : Int) :=
+  Py.fdiv_pos_eq_ediv _ _ (by
+    have : (OfNat.ofNat n : Int) = (n : Int) := rfl
+    rw [this]; have := h.out; omega)
+theorem mod_pos' (a : Int) (n : Nat) [h : NeZero n] :
+    Py.mod a (no_index (OfNat.ofNat n)) = a % (OfNat.ofNat n : Int) :=
+  Py.fmod_pos_eq_emod _ _ (by
+    have : (OfNat.ofNat n : Int) = (n : Int) := rfl
+    rw [this]; have := h.out; omega)
+end Proofs
